@@ -1,5 +1,5 @@
 (* C11 - Overlays behave exactly like the commits they stand for (abstract machine level). *)
-From Nomt Require Import Base Store Base_proofs Store_proofs.
+From Nomt Require Import Base Store Result Overlay Base_proofs Store_proofs Overlay_proofs.
 
 (* a session on a chain sees the committed state with the chain's changes applied oldest first *)
 Theorem C11_view : forall st o m, view st (o :: m) = apply (view st m) (changes_of st o).
@@ -30,3 +30,26 @@ Theorem C11_parent_refused : forall st id c p,
   snd (commit st id false) = CParent /\ cur (fst (commit st id false)) = cur st.
 Proof. exact Store_proofs.overlay_parent_refused. Qed.
 Print Assumptions C11_parent_refused.
+
+(* The overlay index of nomt/src/overlay.rs (mirrored in Overlay.v: Index with prune_below /
+   insert_values, LiveOverlay::new with its zip over the recorded ancestors, value with the
+   seqn arithmetic, finish) implements exactly the specification used above: a chain the
+   specification validates is accepted, and every read through it returns the specification's
+   view - for every reachable overlay store, with ancestors dropped or committed meanwhile. *)
+Theorem C11_overlay_index_implements_view : forall os st chain m,
+  reach os -> mirrors os st -> check_chain st chain = ChainOk m ->
+  exists lo, lo_new os chain = Ok lo /\
+    forall k, apply_view os (cur st) lo k = Ok (get (view st m) k).
+Proof. exact Overlay_proofs.overlay_view_Store. Qed.
+Print Assumptions C11_overlay_index_implements_view.
+
+(* ... and it refuses exactly the chains the specification refuses, never panicking *)
+Theorem C11_overlay_refusals : forall os st chain,
+  reach os -> mirrors os st ->
+  (forall m, check_chain st chain = ChainOk m <->
+             exists lo, lo_new os chain = Ok lo /\ lo_chain lo = m) /\
+  (check_chain st chain = NotAncestor <-> lo_new os chain = Err IANotAncestor) /\
+  (check_chain st chain = Incomplete <-> lo_new os chain = Err IAIncomplete) /\
+  lo_new os chain <> Panic.
+Proof. exact Overlay_proofs.new_refusals. Qed.
+Print Assumptions C11_overlay_refusals.
